@@ -4,7 +4,8 @@ Every case = abstract node state + ONE entry point.  The state is injected into 
 (built by harness/sim.py; see nodesend_lib for the private attributes touched), the real entry point is fired
 (`_SyncObj__sendAppendEntries`, `_checkCommandsToApply`, `_applyCommand`, `_SyncObj__onMessageReceived` with
 append_entries / chunk / apply_command / apply_command_response messages, `_SyncObj__onLeaderChanged`,
-`_SyncObj__loadDumpFile`, `_SyncObj__doApplyCommand`), the messages handed to the transport, the callbacks,
+`_SyncObj__loadDumpFile`, `_SyncObj__doApplyCommand`, `_onTick` with `__needLoadDumpFile` (journal fold at start-up),
+`_SyncObj__tryLogCompaction` with a recording serializer (the cluster written into a dump)), the messages handed to the transport, the callbacks,
 the registry calls and the post-state are captured and diffed with `driver nodesend`.
 
 Besides the diff, property statements are evaluated on the real observations of every case (monitors):
@@ -150,6 +151,20 @@ def run_real(env, case):
                 extra["ret"] = r
             elif op == "reapply":
                 obj._SyncObj__doApplyCommand(env.cmds.to_bytes(case["entry"][0]))
+            elif op == "journalfold":
+                # first tick after a start: the `__needLoadDumpFile` block of `_onTick` (no dump file configured)
+                so.monotonicTime = lambda: 1000.0
+                obj._SyncObj__needLoadDumpFile = True
+                obj._SyncObj__raftElectionDeadline = 1e18
+                obj._onTick(0.0)
+            elif op == "capture":
+                so.monotonicTime = lambda: 1000.0
+                obj._SyncObj__forceLogCompaction = True
+                obj._SyncObj__lastSerializedEntry = None
+                obj._SyncObj__tryLogCompaction()
+                ser = getattr(env.ser, "serialized", [])
+                extra["cluster"] = None if not ser else sorted(L.nnum(n.id) for n in ser[0][0][3])
+                extra["dump_id"] = None if not ser else ser[0][1]
             else:
                 raise ValueError("unknown op " + op)
         finally:
@@ -232,6 +247,10 @@ def driver_line(env, case, real):
                 "cluster": case["cluster"], "dyn": case["conf"]["dyn"]}
     if op == "reapply":
         return {"op": op, "state": js, "entry": ent(case["entry"])}
+    if op == "journalfold":
+        return {"op": op, "state": js, "dyn": case["conf"]["dyn"]}
+    if op == "capture":
+        return {"op": op, "state": js}
     raise ValueError(op)
 
 
@@ -276,6 +295,10 @@ def compare(env, case, real, model):
             return "nextIndex: impl %s model %s" % (rn, model["next"])
         return None
     if merr is not None and op != "fappend":
+        return None
+    if op == "capture":
+        if real["extra"].get("cluster") != model.get("cluster"):
+            return "dump cluster: impl %s model %s" % (real["extra"].get("cluster"), model.get("cluster"))
         return None
     if "out" in model:
         mo = L.strip_cmd(L.canon_model_out(model["out"]))
@@ -783,6 +806,51 @@ class Gen(object):
         members = r.sample([1, 2, 3, 4, 5], r.randint(0, 4))
         return self.fappend_case(log, prev, es, dyn=r.random() < 0.7, members=members, self_id=r.choice([0, 0, None]))
 
+    # ---------------------------------------------------------------- journal fold at start-up / dump cluster
+    def mem_log(self, first, kinds, terms=None):
+        out = []
+        for i, k in enumerate(kinds):
+            c = self.cmd(k[0], k[1]) if isinstance(k, tuple) else self.cmd(k, size=3 + i)
+            out.append([c, first + i, terms[i] if terms else 1])
+        return out
+
+    def sys_start_capture(self):
+        cases = []
+        hist = ["noop", ("add", 3), "reg", ("rem", 1), ("add", 1), ("rem", 3), ("add", 0), ("rem", 0), ("memother", 2), ("add", 4)]
+        for first in (1, 7):
+            for n in range(1, len(hist) + 1):
+                log = self.mem_log(first, hist[:n])
+                for members in ([1, 2], [1, 2, 3], [2, 4], []):
+                    for dyn in (True, False):
+                        st = blank_state(members=members, log=log, lastApplied=first, commit=first, connected=[],
+                                         next=[[d, first + n] for d in members], match=[[d, 0] for d in members])
+                        cases.append({"op": "journalfold", "conf": conf(dyn=dyn), "state": st})
+                    # dump cluster at every lastApplied that `__tryLogCompaction` accepts (two entries up to it)
+                    for la in range(first + 1, first + n):
+                        st = blank_state(members=members, log=log, lastApplied=la, commit=la, connected=[],
+                                         next=[[d, first + n] for d in members], match=[[d, 0] for d in members])
+                        cases.append({"op": "capture", "conf": conf(dyn=True), "state": st})
+        cases.append({"op": "journalfold", "conf": conf(dyn=True), "state": blank_state(log=[])})
+        return cases
+
+    def rnd_start_capture(self):
+        r = self.rng
+        first = r.choice([1, 1, 5, 30])
+        n = r.randint(2, 9)
+        pool = [0, 1, 2, 3, 4, 5]
+        kinds = []
+        for i in range(n):
+            x = r.random()
+            kinds.append(("add", r.choice(pool)) if x < 0.3 else ("rem", r.choice(pool)) if x < 0.6 else ("memother", 2) if x < 0.63 else "reg")
+        log = self.mem_log(first, kinds, terms=sorted(r.randint(0, 3) for _ in range(n)))
+        members = r.sample([1, 2, 3, 4, 5], r.randint(0, 4))
+        la = r.randint(first + 1, first + n - 1)
+        st = blank_state(members=members, log=log, lastApplied=la, commit=la, connected=[],
+                         next=[[d, first + n] for d in members], match=[[d, 0] for d in members])
+        if r.random() < 0.5:
+            return {"op": "capture", "conf": conf(dyn=True), "state": st}
+        return {"op": "journalfold", "conf": conf(dyn=r.random() < 0.85), "state": st}
+
     # ---------------------------------------------------------------- snapshot restore / re-apply at commit
     def sys_member_misc(self):
         cases = []
@@ -875,7 +943,7 @@ def classify(case, real, model):
 
 
 FLOORS = ["probe:unconfirmed", "probe:confirmed-exactly", "probe:confirmed-beyond", "send:pipelined", "op:send", "op:sendall", "op:check", "op:submit", "op:recv_apply", "op:recv_response", "op:leader_changed",
-          "op:fappend", "op:restore", "op:reapply", "batch:regular", "batch:chunked", "batch:heartbeat", "batch:snapshot",
+          "op:fappend", "op:restore", "op:reapply", "op:journalfold", "op:capture", "batch:regular", "batch:chunked", "batch:heartbeat", "batch:snapshot",
           "chunk:start", "chunk:process", "chunk:finish", "send:spin", "send:budget", "send:drop",
           "dispatch:appendLocal", "dispatch:appendRemote", "dispatch:denied", "dispatch:forward", "dispatch:notLeader",
           "dispatch:missingLeader", "gate:noop-unapplied", "gate:change-pending", "gate:change-cleared", "gate:open",
@@ -980,10 +1048,13 @@ def build_cases(env, gen, ctx):
     cases += gen.sys_small()
     cases += gen.sys_fappend()
     cases += gen.sys_member_misc()
+    cases += gen.sys_start_capture()
     cases += gen.sys_send(ctx.scale(8, 1))
     for i in range(n_rnd):
         x = i % 10
-        if x < 4:
+        if i % 23 == 0:
+            cases.append(gen.rnd_start_capture())
+        elif x < 4:
             cases.append(gen.rnd_send())
         elif x < 5:
             cases.append(gen.rnd_sendall())
